@@ -921,3 +921,68 @@ Proof.
     try reflexivity.
   all: unfold splice, P_USERNAME, P_PASSWORD, P_HOST_START; rewrite ?middle_cred by lia; reflexivity.
 Qed.
+
+(* ---------------------------------------------------------------------------------- *)
+(* the freedom the property grants: offsets of trailing unset parts are 0 or repeat    *)
+(* ---------------------------------------------------------------------------------- *)
+
+Fixpoint fix_tail (last : N) (l : list N) : list N :=
+  match l with
+  | [] => []
+  | x :: t => if x =? 0 then last :: fix_tail last t else x :: fix_tail x t
+  end.
+(* the normal form the correspondence check compares (driver: repr_str): a 0 offset repeats the previous one *)
+Definition norm_tail (r : repr) : repr := w_ends r (fix_tail 0 (r_ends r)).
+
+Lemma fix_tail_zeros l0 m : fix_tail l0 (repeat 0 m) = repeat l0 m.
+Proof. induction m as [|m IH]; [reflexivity|]. cbn [repeat fix_tail N.eqb]. rewrite IH. reflexivity. Qed.
+
+Lemma last_nonempty_default (A : list N) x d d' : last (x :: A) d = last (x :: A) d'.
+Proof. revert x. induction A as [|y A IH]; intro x; [reflexivity|]. change (last (y :: A) d = last (y :: A) d'). apply IH. Qed.
+
+Lemma fix_tail_app (A : list N) : forall l0 m, Forall (fun x => x <> 0) A ->
+  fix_tail l0 (A ++ repeat 0 m) = A ++ repeat (last A l0) m.
+Proof.
+  induction A as [|x A IH]; intros l0 m HA.
+  - cbn [app last]. apply fix_tail_zeros.
+  - inversion HA as [|? ? Hx HA']; subst. cbn [app fix_tail].
+    destruct (N.eqb_spec x 0); [contradiction|]. rewrite IH by exact HA'.
+    replace (last (x :: A) l0) with (last A x); [reflexivity|].
+    destruct A as [|y A]; [reflexivity|]. change (last (x :: y :: A) l0) with (last (y :: A) l0). apply last_nonempty_default.
+Qed.
+
+Lemma last_nth (l : list N) d : last l d = nth (length l - 1) l d.
+Proof.
+  induction l as [|x l IH]; [reflexivity|]. destruct l as [|y l]; [reflexivity|].
+  change (last (x :: y :: l) d) with (last (y :: l) d). rewrite IH. cbn [length]. 
+  replace (S (S (length l)) - 1)%nat with (S (length l)) by lia. replace (S (length l) - 1)%nat with (length l) by lia.
+  reflexivity.
+Qed.
+
+Lemma ends_of_full ps : ends_of ps (length ps) = scan_ends 0 ps.
+Proof.
+  unfold ends_of. rewrite Nat.sub_diag. cbn [repeat]. rewrite app_nil_r.
+  apply firstn_all2. rewrite scan_ends_length. lia.
+Qed.
+
+Lemma norm_tail_conc ps n f c : PW ps n -> norm_tail (conc ps n f c) = conc ps 11 f c.
+Proof.
+  intros [Hlen Hn Hsch Htail]. unfold norm_tail, w_ends, conc. cbn [r_norm r_ends r_flags r_segs]. f_equal.
+  unfold ends_of at 1. rewrite fix_tail_app.
+  - replace 11%nat with (length ps) by exact Hlen. rewrite ends_of_full.
+    set (S0 := scan_ends 0 ps). transitivity (firstn n S0 ++ skipn n S0); [|apply firstn_skipn]. f_equal. subst S0.
+    apply (nth_ext _ _ 0 0).
+    + rewrite repeat_length, skipn_length, scan_ends_length. reflexivity.
+    + intros j Hj. rewrite repeat_length in Hj. rewrite nth_skipn_add, scan_ends_nth by lia.
+      assert (Hrep : forall (a : N) m i, (i < m)%nat -> nth i (repeat a m) 0 = a).
+      { intros a m. induction m as [|m IH]; intros [|i] Hi; try lia; cbn [repeat nth]; [reflexivity|apply IH; lia]. }
+      rewrite Hrep by exact Hj.
+      assert (Hl : length (firstn n (scan_ends 0 ps)) = n) by (rewrite firstn_length, scan_ends_length; lia).
+      destruct n as [|n']; [lia|].
+      rewrite last_nth, Hl. replace (S n' - 1)%nat with n' by lia.
+      rewrite nth_firstn_lt, scan_ends_nth by lia.
+      rewrite (pre_tail ps (S n') (S n') Htail), (pre_tail ps (S n') (S (S n' + j)) Htail) by lia. reflexivity.
+  - apply Forall_forall. intros x Hx. apply (In_nth _ _ 0) in Hx. destruct Hx as [i [Hi Hx]].
+    rewrite firstn_length, scan_ends_length in Hi.
+    rewrite nth_firstn_lt, scan_ends_nth in Hx by lia. pose proof (pre_pos ps (S i) Hsch ltac:(lia)). lia.
+Qed.
